@@ -122,6 +122,9 @@ type State struct {
 	dead    bool
 	steps   int
 	infeasible bool
+	havocEpoch int
+	havocExcept map[string]bool // heap arrays untouched by every whole-heap havoc so far
+	d *Decls
 	havocAll string // non-empty: the whole heap was havocked (by what)
 }
 
@@ -176,6 +179,7 @@ func (st *State) clone() *State {
 	n.cells = copyMap(st.cells)
 	n.heap = copyMap(st.heap)
 	n.heapNow = copyMap(st.heapNow)
+	n.havocExcept = copyMap(st.havocExcept)
 	n.ghost = copyMap(st.ghost)
 	n.globals = copyMap(st.globals)
 	n.calls = copyMap(st.calls)
@@ -218,6 +222,16 @@ func (st *State) note(s string) {
 func (st *State) heapGet(name string) string {
 	if t, ok := st.heap[name]; ok {
 		return t
+	}
+	if st.havocEpoch > 0 && st.d != nil && !st.havocExcept[name] {
+		// first mention of this heap array after a whole-heap havoc: it may have been modified by that call
+		nn := st.d.fresh(name)
+		if srt, ok := st.d.constSort(name); ok {
+			st.declare(nn, srt)
+			st.heap[name] = nn
+			st.heapNow[name] = st.alive
+			return nn
+		}
 	}
 	return name
 }
